@@ -68,7 +68,7 @@ AFTER_MEASURED = {
 AFTER_DEFAULT = 8
 
 REPORT_LOCK = threading.Lock()     # worker threads: Check.report / build_harness are not thread-safe
-HIST_ENV = {"clearsol-sealed": "sealed", "multigoal-blocks": "blocks", "free-exact": "free"}
+HIST_ENV = {"clearsol-sealed": "sealed", "multigoal-blocks": "blocks", "free-exact": "free", "free-exact-dyadic": "free"}
 CLEARSOL_KS = [0, 1, 2, 5]
 SEALED_K = 250
 ROADMAP = {"PRM", "PRMstar", "LazyPRM", "LazyPRMstar", "SPARS", "SPARStwo"}   # override setProblemDefinition (clearQuery)
@@ -160,6 +160,10 @@ def histories(tier):
         # a planner parameter changed between calls (after setup() / the first solve)
         "setparam": lambda k, K: [q("setpd", QA), "solve %d" % k, "setparam range 0.05", "solve %d" % k, "setparam goal_bias 0.5",
                                   "solve %d" % K, "clear", "setparam range 0.3", "solve %d" % k],
+        # the same with an axis-aligned query whose coordinates are dyadic: the straight path's cost equals the heuristic
+        # lower bound BIT FOR BIT (with QA they differ by a few ulp and the informed set keeps a sliver of measure)
+        "free-exact-dyadic": lambda k, K: [qx("setpd", QH, 2.220446049250313e-16), "solve %d" % k, "solve %d" % K, "solve %d" % k,
+                                           "clear", "solve %d" % k],
         "swap": lambda k, K: [q("setpd", QA), "solve %d" % K, "clear", q("setsg", QSWAP), "solve %d" % k, "solve %d" % K],
         "invalid-start": lambda k, K: [q("setpd", QINV), "solve %d" % k, "addstart " + pt(QA[0]), "solve %d" % k,
                                        "solve %d" % K],
@@ -1000,7 +1004,7 @@ def run(ck):
     if ck.lean_ok:
         r = ck.rng.fork("lockstep")
         ljobs = []
-        lhs = {n: f for n, f in hs.items() if n not in ("mutpd", "mutpd-clear", "clearsol-sealed", "multigoal", "multigoal-blocks", "free-exact", "ptc-kinds", "setparam")}
+        lhs = {n: f for n, f in hs.items() if n not in ("mutpd", "mutpd-clear", "clearsol-sealed", "multigoal", "multigoal-blocks", "free-exact", "free-exact-dyadic", "ptc-kinds", "setparam")}
         for planner in LOCKSTEP_CORE:
             lseeds = [seeds[planner], r.below(1000)] if quick else [seeds[planner]] + [r.below(1000) for _ in range(2)]
             for s in lseeds:
@@ -1080,9 +1084,15 @@ MANIFEST = {
             "setProblemDefinition_rereads_query also for the pointer already held). "
             "The models are tied to geometric::RRT, control::RRT(intermediate states) and PRM/PRMstar by lock-step runs "
             "(per-iteration oracle answers taken from the real run's trace; milestone counts for PRM). All other planners "
-            "are exploration-backed only (incl. BIT*/ABIT* with approximate-solution tracking, control RRT with intermediate "
-            "states; worlds: obstacles, sealed goal, two goal states, obstacle-free with an exact goal; a harness watchdog "
-            "turns 'solve() did not return after the condition fired' / 'stopped evaluating the condition' into failing inputs): enumerated k x histories "
+            "are exploration-backed only: 41 geometric planners + variants (RRT/RRTConnect with intermediate states, BIT*/ABIT* "
+            "with approximate-solution tracking), 4 multilevel planners on a one-level sequence, 6 control planners; worlds: "
+            "obstacles, sealed goal, two goal states, obstacle-free with an exact goal (also with a bit-exact optimal cost); "
+            "histories incl. same-pointer problem-definition mutation, parameter changes between solves, start == goal, "
+            "duplicate starts, states on the bounds, and the real IterationTerminationCondition / terminate(); a harness "
+            "watchdog turns 'solve() did not return after the condition fired' / 'stopped evaluating the condition' into "
+            "failing inputs; known-finding matches are keyed on the as-coded wrong value (old-query start/goal, crash site, "
+            "exception text, zero evaluations): "
+            "enumerated k x histories "
             "run against the real code and judged by a spec oracle with ASan/LSan and an allocation-counting state space.",
     "note": "Level: proof for the protocol layer and the modelled RRT core; exploration-backed (no proof) for every other "
             "planner. Trusted: Lean kernel, standard axioms, the hand-written model outside what lock-step explored, the "
